@@ -3,7 +3,7 @@ import XmpModel.MixLinear
 written by harness/c14_mixlinear.c (one answer line per case line).
 
   sum <k> <n> <k*n words>                       -> n words of `tick n` (unsigned 32-bit)
-  vol <vol> <mvol> <mvolbase> <pan>             -> vol_l vol_r vl vr
+  vol <vol> <mvol> <mvolbase> <pan> <old_vl> <old_vr> <rampsize>   -> vol_l vol_r vl vr delta_l delta_r
   dlt <v> <old> <rampsize>                      -> delta
   pan <fp> <mix> <mono> <surround>              -> voice pan
   mst <chn> <modchn> <numtracks> <master> <smix> <root> <muted> <fv>   -> vi->vol
@@ -52,9 +52,9 @@ def answer (ws : List String) : Option String :=
     let k := pNat k; let n := pNat n
     let cs : List Buf := (chunks n (rest.map pNat) k).map fun c => c.map (BitVec.ofNat 32)
     some (" ".intercalate ((tick n cs).map fun x => toString x.toNat))
-  | ["vol", vol, mvol, mvolbase, pan] =>
+  | ["vol", vol, mvol, mvolbase, pan, ovl, ovr, rs] =>
     let lr := volLR (mixVol (pInt vol) (pInt mvol) (pInt mvolbase)) (pInt pan)
-    some s!"{lr.1} {lr.2} {level lr.1} {level lr.2}"
+    some s!"{lr.1} {lr.2} {level lr.1} {level lr.2} {rampDelta lr.1 (pInt ovl) (pInt rs)} {rampDelta lr.2 (pInt ovr) (pInt rs)}"
   | ["dlt", v, old, r] => some s!"{rampDelta (pInt v) (pInt old) (pInt r)}"
   | ["pan", fp, mix, mono, sur] => some s!"{voicePan (pInt fp) (pInt mix) (pBool mono) (pBool sur)}"
   | ["mst", chn, modchn, nt, master, smix, root, muted, fv] =>
